@@ -46,6 +46,22 @@ CLAIMED = {
    text="Kernel-checked theorems for arbitrary environment responses (every state, fault, interference), hence every run: the read-only API issues no path-naming mutating call at all; every path-naming mutating call of the stacked API (promotion, replacement, misses, invalid names, maintenance included) names a path under the write directory, one of its ancestors, a caller-provided path or the system temp directory — never under a read-only root disjoint from those. Tie: C13 matrix + random stacked histories (missing read-only directories, invalid names): trace oracle (only open/stat/read/seek/close and atime-only futimens under a read-only root) and before/after snapshots of the read-only roots equal up to a non-decreasing st_atime; model/implementation agreement.",
    ref="DESIGN.md section 6 C15", technique="Rocq proof (class-monitor weakest preconditions over program trees, all responses) + trace/snapshot correspondence",
    note="Descriptor-based effects (futimens/fchmod/write on a descriptor of a read-only entry) are enforced on the implementation's traces and by model agreement; the kernel-checked statement covers path-naming calls. Callbacks are assumed confined likewise."),
+ "C07": dict(category="translation_validation",
+   text="Differential validation of the maintenance model against the implementation: directory populations (0..6 quick / 0..10 thorough files, tied modification times, read marks, stray directories, dot-files, temp files) x every capacity x {raw prune, plain write, sharded write} under a scripted clock, plus the same populations with an entry vanishing during the scan (ENOENT injected on its stat): results, snapshots and call traces equal to the model's; the unlink / re-stamp ORDER taken from the implementation's trace is judged by the extracted planner verdict valid_plan (proved sound in C08), counts, re-stamp values (now, now-120 s), untouched entries and directories unchanged. The planner itself is proved equal to the classical clock for all inputs (C08).",
+   ref="DESIGN.md section 6 C07", technique="model/implementation correspondence with a proved planner verdict (Rocq refinement theorem prune = queue: in progress)",
+   note="Level is stated as translation validation until the refinement theorem of prune to the abstract queue is finished; kernel-checked today: the planner theorems (C08) and the tagging lemma C07_entries_tagged. Finding F2 reproduced and repaired by fix commit b0fe080."),
+ "C09": dict(category="translation_validation",
+   text="Differential validation under {relatime, emulated no-atime} x {native, 1 s, 2 s granularity}: after every step of random sequences the (rank order, read mark, content) of every entry equals the model's under the same policy; the property's oracle on the implementation's snapshots; behavioural cases where the NEXT maintenance must reprieve the entry just read. Kernel-checked lemmas: the 120 s offset keeps a new entry unmarked after truncation to any granularity <= 2 s (on the regenerated constant), the explicit touch marks.",
+   ref="DESIGN.md section 6 C09", technique="model/implementation correspondence under emulated atime policies and granularities + Rocq arithmetic lemmas (sequence-level theorem: in progress)",
+   note="strict atime cannot be mounted; emulation is done in the interposer (O_NOATIME, timestamp truncation)."),
+ "C11": dict(category="translation_validation",
+   text="Differential validation on random sequential histories (20-60 quick / 40-200 thorough operations, 4-8 keys with clustered/identical/spread hashes, plain/sharded/stacked, 1-3 handles, capacities from always-maintain to never, scripted draws): after EVERY step the result and a full snapshot equal the model's; a key-value-map oracle on the implementation's own observations (latest set / first put, no vanishing on reads, single copy per key, source consumed).",
+   ref="DESIGN.md section 6 C11", technique="model/implementation correspondence + map oracle (Rocq refinement to the key-value spec: in progress)",
+   note="Kernel-checked today: the two candidate shards are distinct (C12), sweep theorems for single operations (C13)."),
+ "C17": dict(category="translation_validation",
+   text="Differential validation on random populations mixing key-named files, dot-prefixed application files, sub-directories with content, temp files aged limit +-{1 ns,1 s,10 s} and exactly the limit under a scripted clock, nested directories in the temp dir: whatever disappears must be a key-named file of the directory or a stale file directly in its temp dir, stale temp files go, young ones and everything else stay; results/snapshots/traces equal to the model's. Kernel-checked: the age limit read from the current source is one hour; confinement of every mutating call to the maintained directory (C16/C15 theorems cover maintenance).",
+   ref="DESIGN.md section 6 C17", technique="model/implementation correspondence under a scripted clock (Rocq scope theorem for maintenance: in progress)",
+   note="Finding F2 reproduced and repaired by fix commit b0fe080."),
 }
 
 checks, na = [], []
